@@ -396,6 +396,7 @@ type epReport struct {
 	Pairs      []string    `json:"pairs"`
 	Violations []Violation `json:"violations"`
 	Plan       *simsched.Plan `json:"plan,omitempty"` // failing plan, if any
+	BaseA      [][]string  `json:"base_a,omitempty"` // sequential-baseline results (sampled episodes), for the run-alone reference
 	Done       bool        `json:"done,omitempty"`
 	Begin      bool        `json:"begin,omitempty"`
 	Run        int         `json:"run,omitempty"`
@@ -509,6 +510,9 @@ func checkEpisode(seed uint64, e int, ep *Episode, st *Sites, K int, emit func(r
 		}
 	}
 	rep.SitesExec = exec
+	if e%4 == 0 {
+		rep.BaseA = A.Results
+	}
 	r := core.Derive(seed, "consim", "plans", e)
 	stepLimit = 16*A.Stats.Yields + 5e6
 	defer func() { stepLimit = 6e9 }()
@@ -579,6 +583,12 @@ type ReplayFile struct {
 	SiteTable       string         `json:"site_table_hash"`
 	Race            bool           `json:"race_build"`
 	Cold            bool           `json:"cold_start,omitempty"`
+	// WarmAlone: found by comparing a long-lived worker's sequential result with a
+	// run-alone reference; replaying re-runs that worker's whole share up to the episode
+	WarmAlone       bool           `json:"warm_alone,omitempty"`
+	WorkerW         int            `json:"worker_first_episode,omitempty"`
+	WorkerNW        int            `json:"worker_stride,omitempty"`
+	WorkerK         int            `json:"worker_plans_per_episode,omitempty"`
 	BestEffort      bool           `json:"replay_best_effort,omitempty"` // race report that did not recur when the schedule was re-executed
 	RunIndex        int            `json:"run_index,omitempty"` // race reports: index of the run (0,1 = baselines) in which the report came
 	Minimised       bool           `json:"minimised"`
